@@ -340,7 +340,7 @@ def run(ctx):
     _WORLD = (world, classes)
     nslices = 16
     with mp.Pool(nslices) as pool:
-        parts = pool.map(_behaviour_slice, [(ctx.seed, per, k, nslices) for k in range(nslices)])
+        parts = lib.safe_map(pool, _behaviour_slice, [(ctx.seed, per, k, nslices) for k in range(nslices)])
     expect = []
     out = ["grammar-ok"]
     nrules = 0
